@@ -44,7 +44,7 @@ ANCHORS = [
 FLAGS = [(False, False), (False, True), (True, False), (True, True), "inv"]
 CHANGES = ["inplace", "data_", "callable"]
 MODELS = X.INVERTIBLE + ["Sequential", "Generic"]
-N_CASES = {"quick": len(MODELS) * 3 * 5, "thorough": len(MODELS) * 3 * 5 * 24}
+N_CASES = {"quick": len(MODELS) * 3 * 5, "thorough": len(MODELS) * 3 * 5 * 96}
 BUDGET = {"quick": 600, "thorough": 5400}
 
 
